@@ -79,9 +79,246 @@ Proof.
     intros r'. cbn [app strip_prefix]. rewrite N.eqb_refl. apply L.
 Qed.
 
+Definition ws_led (r : list N) : Prop := match r with [] => True | w :: _ => is_ws w = true end.
+
+(* ---- what may change behind a token without moving its end ------------------------------------------------------- *)
+Definition ins (g r r' : list N) : Prop := exists a b, r = a ++ b /\ r' = a ++ g ++ b.
+Lemma wsne_head : forall g, wsne g -> exists w g', g = w :: g' /\ is_ws w = true.
+Proof.
+  intros [|w g'] [Hne Hall]; [contradiction|]. unfold wsall in Hall. cbn [forallb] in Hall.
+  apply andb_prop in Hall as [Hw _]. eauto.
+Qed.
+(* sim r r': from some point on, r' is r unchanged, or nothing, or text that starts with whitespace *)
+Definition sim (r r' : list N) : Prop :=
+  exists x t t', r = x ++ t /\ r' = x ++ t' /\ (t' = t \/ t' = [] \/ exists w t'', t' = w :: t'' /\ is_ws w = true).
+Lemma sim_refl : forall r, sim r r.
+Proof. intros r. exists r, [], []. rewrite app_nil_r. auto. Qed.
+Lemma sim_prefix : forall y r r', sim r r' -> sim (y ++ r) (y ++ r').
+Proof. intros y r r' (x & t & t' & -> & -> & H). exists (y ++ x), t, t'. rewrite <- !app_assoc. auto. Qed.
+Lemma sim_of_ins : forall g r r', wsne g -> ins g r r' -> sim r r'.
+Proof.
+  intros g r r' Hg (a & b & -> & ->). destruct (wsne_head g Hg) as (w & g' & -> & Hw).
+  exists a, b, ((w :: g') ++ b). repeat split. right. right. exists w, (g' ++ b). split; [reflexivity|exact Hw].
+Qed.
+Lemma sim_of_ws_led : forall r r', ws_led r' -> sim r r'.
+Proof.
+  intros r [|w r'] H; exists [], r; [exists []|exists (w :: r')]; cbn; repeat split; auto.
+  right. right. exists w, r'. split; [reflexivity|exact H].
+Qed.
+Lemma sim_cons : forall r r', sim r r' ->
+  r' = r \/ r' = [] \/ (exists w t, r' = w :: t /\ is_ws w = true) \/ (exists c u u', r = c :: u /\ r' = c :: u' /\ sim u u').
+Proof.
+  intros r r' (x & t & t' & -> & -> & H). destruct x as [|c x].
+  - cbn. destruct H as [-> | [-> | (w & t'' & -> & Hw)]].
+    + left. reflexivity.
+    + right. left. reflexivity.
+    + right. right. left. exists w, t''. split; [reflexivity|exact Hw].
+  - right. right. right. exists c, (x ++ t), (x ++ t'). repeat split. exists x, t, t'. auto.
+Qed.
+
+Lemma sim_stops : forall p r r', (forall w, is_ws w = true -> p w = false) -> sim r r' -> stops p r -> stops p r'.
+Proof.
+  intros p r r' Hp Hs H. destruct (sim_cons _ _ Hs) as [-> | [-> | [(w & t & -> & Hw) | (c & u & u' & -> & -> & _)]]]; cbn in *; auto.
+Qed.
+Lemma sim_frac_follows : forall r r', sim r r' -> frac_follows r = false -> frac_follows r' = false.
+Proof.
+  intros r r' Hs H. destruct (sim_cons _ _ Hs) as [-> | [-> | [(w & t & -> & Hw) | (c & u & u' & -> & -> & Hs2)]]]; auto.
+  - cbn [frac_follows]. destruct t; replace (w =? 46) with false by (unfold is_ws in Hw; lia); reflexivity.
+  - destruct (sim_cons _ _ Hs2) as [-> | [-> | [(w & t & -> & Hw) | (d & v & v' & -> & -> & _)]]]; auto.
+    + cbn [frac_follows]. rewrite (ws_not_digit w Hw). apply andb_false_r.
+Qed.
+Lemma sim_eq_follows : forall r r', sim r r' -> eq_follows r = false -> eq_follows r' = false.
+Proof.
+  intros r r' Hs H. destruct (sim_cons _ _ Hs) as [-> | [-> | [(w & t & -> & Hw) | (c & u & u' & -> & -> & _)]]]; auto.
+  cbn. unfold is_ws in Hw. lia.
+Qed.
+Definition follows_like (r r' : list N) : Prop :=
+  (stops is_idc r -> stops is_idc r') /\ (stops is_digit r -> stops is_digit r') /\
+  (frac_follows r = false -> frac_follows r' = false) /\ (eq_follows r = false -> eq_follows r' = false).
+Lemma follows_like_sim : forall r r', sim r r' -> follows_like r r'.
+Proof.
+  intros r r' H. repeat split.
+  - apply (sim_stops _ r r' ws_not_idc H).
+  - apply (sim_stops _ r r' ws_not_digit H).
+  - apply (sim_frac_follows r r' H).
+  - apply (sim_eq_follows r r' H).
+Qed.
+Lemma frac_true_shape : forall d a2 b2, frac_follows (d :: a2 ++ b2) = true -> stops is_digit b2 ->
+  d = 46 /\ exists e a2', a2 = e :: a2'.
+Proof.
+  intros d a2 b2 Hf St. cbn [frac_follows] in Hf. destruct a2 as [|e a2'].
+  - cbn [app] in Hf. destruct b2 as [|e b2]; [discriminate|]. apply andb_prop in Hf as [_ Hf2].
+    cbn in St. rewrite St in Hf2. discriminate.
+  - cbn [app] in Hf. apply andb_prop in Hf as [Hf1 _]. split; [lia|eauto].
+Qed.
+
+(* ---- the literal grammar -------------------------------------------------------------------------------------------- *)
+Definition wsfree (ps : list (N -> bool)) : Prop := Forall (fun p => forall w, is_ws w = true -> p w = false) ps.
+Fixpoint total (g : gram) : Prop :=
+  match g with GEnd | GDigits => True | GOpt _ k => total k | GReq _ _ => False end.
+Fixpoint gwf (g : gram) : Prop :=
+  match g with
+  | GEnd | GDigits => True
+  | GReq ps k => wsfree ps /\ gwf k
+  | GOpt inner k => gwf inner /\ gwf k /\ total k
+  end.
+Lemma total_some : forall g, total g -> forall s, run g s <> None.
+Proof.
+  induction g as [| |ps k IHk|inner IHi k IHk]; intros T s; cbn in *; try discriminate; try contradiction.
+  destruct (run inner s) as [[l r]|].
+  - destruct (run k r) as [[l2 r2]|] eqn:E; [discriminate|]. exfalso. exact (IHk T r E).
+  - apply IHk. exact T.
+Qed.
+Lemma take_pat_some : forall ps s l r, take_pat ps s = Some (l, r) -> s = l ++ r /\ forall r', take_pat ps (l ++ r') = Some (l, r').
+Proof.
+  induction ps as [|p ps IH]; intros s l r H.
+  - cbn in H. inversion H; subst. split; reflexivity.
+  - destruct s as [|c s]; [discriminate|]. cbn [take_pat] in H. destruct (p c) eqn:Hp; [|discriminate].
+    destruct (take_pat ps s) as [[l0 r0]|] eqn:E; [|discriminate]. inversion H; subst.
+    destruct (IH _ _ _ E) as [E1 L]. split; [cbn; f_equal; exact E1|]. intros r'. cbn [app take_pat]. rewrite Hp, L. reflexivity.
+Qed.
+Lemma take_pat_sim : forall ps s s' l r, wsfree ps -> take_pat ps s = Some (l, r) -> sim s s' ->
+  take_pat ps s' = None \/ exists r', take_pat ps s' = Some (l, r') /\ sim r r'.
+Proof.
+  induction ps as [|p ps IH]; intros s s' l r W H Hs.
+  - cbn in H. inversion H; subst. right. exists s'. split; [reflexivity|exact Hs].
+  - inversion W as [|? ? Wp Wps]; subst. destruct s as [|c s]; [discriminate|]. cbn [take_pat] in H.
+    destruct (p c) eqn:Hp; [|discriminate]. destruct (take_pat ps s) as [[l0 r0]|] eqn:E; [|discriminate]. inversion H; subst.
+    destruct (sim_cons _ _ Hs) as [-> | [-> | [(w & t & -> & Hw) | (c' & u & u' & E1 & -> & Hs2)]]].
+    + right. exists r. split; [cbn [take_pat]; rewrite Hp, E; reflexivity|apply sim_refl].
+    + left. reflexivity.
+    + left. cbn [take_pat]. rewrite (Wp w Hw). reflexivity.
+    + inversion E1; subst c' u. cbn [take_pat]. rewrite Hp.
+      destruct (IH _ _ _ _ Wps E Hs2) as [-> | (r' & -> & Hr)]; [left; reflexivity|right; eauto].
+Qed.
+Lemma take_pat_none_sim : forall ps s s', wsfree ps -> take_pat ps s = None -> sim s s' -> take_pat ps s' = None.
+Proof.
+  induction ps as [|p ps IH]; intros s s' W H Hs; [discriminate|].
+  inversion W as [|? ? Wp Wps]; subst.
+  destruct (sim_cons _ _ Hs) as [-> | [-> | [(w & t & -> & Hw) | (c & u & u' & -> & -> & Hs2)]]]; auto.
+  - cbn [take_pat]. rewrite (Wp w Hw). reflexivity.
+  - cbn [take_pat] in *. destruct (p c); [|reflexivity].
+    destruct (take_pat ps u) as [[l0 r0]|] eqn:E; [discriminate|]. rewrite (IH _ _ Wps E Hs2). reflexivity.
+Qed.
+Lemma run_none_sim : forall g, gwf g -> forall s s', run g s = None -> sim s s' -> run g s' = None.
+Proof.
+  induction g as [| |ps k IHk|inner IHi k IHk]; intros W s s' H Hs; cbn [run] in *; try discriminate.
+  - destruct W as [Wps Wk]. destruct (take_pat ps s) as [[l r]|] eqn:E.
+    + destruct (run k r) as [[l2 r2]|] eqn:Ek; [discriminate|].
+      destruct (take_pat_sim _ _ _ _ _ Wps E Hs) as [-> | (r' & -> & Hr)]; [reflexivity|].
+      rewrite (IHk Wk _ _ Ek Hr). reflexivity.
+    + rewrite (take_pat_none_sim _ _ _ Wps E Hs). reflexivity.
+  - destruct W as (Wi & Wk & Tk). exfalso.
+    destruct (run inner s) as [[l r]|].
+    + destruct (run k r) as [[l2 r2]|] eqn:Ek; [discriminate|]. exact (total_some k Tk r Ek).
+    + exact (total_some k Tk s H).
+Qed.
+Lemma run_stable : forall g, gwf g -> forall s l r, run g s = Some (l, r) ->
+  s = l ++ r /\ forall r', sim r r' -> run g (l ++ r') = Some (l, r').
+Proof.
+  induction g as [| |ps k IHk|inner IHi k IHk]; intros W s l r H; cbn [run] in H.
+  - inversion H; subst. split; [reflexivity|]. intros r' _. reflexivity.
+  - inversion H as [Hsp]. destruct (span_spec _ _ _ _ Hsp) as (E & Fa & St). split; [exact E|].
+    intros r' Hs. cbn [run]. rewrite (span_intro is_digit l r' Fa (sim_stops _ _ _ ws_not_digit Hs St)). reflexivity.
+  - destruct W as [Wps Wk]. destruct (take_pat ps s) as [[l1 r1]|] eqn:E; [|discriminate].
+    destruct (run k r1) as [[l2 r2]|] eqn:Ek; [|discriminate]. inversion H; subst.
+    destruct (take_pat_some _ _ _ _ E) as [E1 L1]. destruct (IHk Wk _ _ _ Ek) as [E2 L2]. split.
+    + rewrite E1, E2, app_assoc. reflexivity.
+    + intros r' Hs. cbn [run]. rewrite <- app_assoc, L1, (L2 r' Hs). reflexivity.
+  - destruct W as (Wi & Wk & Tk). destruct (run inner s) as [[l1 r1]|] eqn:Ei.
+    + destruct (run k r1) as [[l2 r2]|] eqn:Ek; [|discriminate]. inversion H; subst.
+      destruct (IHi Wi _ _ _ Ei) as [E1 L1]. destruct (IHk Wk _ _ _ Ek) as [E2 L2]. split.
+      * rewrite E1, E2, app_assoc. reflexivity.
+      * intros r' Hs. cbn [run]. rewrite <- app_assoc. rewrite (L1 (l2 ++ r')).
+        -- rewrite (L2 r' Hs). reflexivity.
+        -- rewrite E2. apply sim_prefix. exact Hs.
+    + destruct (IHk Wk _ _ _ H) as [E2 L2]. split; [exact E2|].
+      intros r' Hs. cbn [run]. rewrite (run_none_sim inner Wi s (l ++ r') Ei).
+      * apply L2. exact Hs.
+      * rewrite E2. apply sim_prefix. exact Hs.
+Qed.
+Ltac wsfree_tac := repeat constructor; intros w Hw; unfold is_c, is_pm, is_digit, is_ws in *; lia.
+Lemma gwf_timelit : gwf g_timelit.
+Proof. cbn. repeat split; try wsfree_tac. Qed.
+Lemma gwf_datelit : gwf g_datelit.
+Proof. cbn. repeat split; try wsfree_tac. Qed.
+Lemma scan_at_stable : forall s l r, scan_at s = Some (l, r) ->
+  s = l ++ r /\ forall r', sim r r' -> scan_at (l ++ r') = Some (l, r').
+Proof.
+  intros s l r H. unfold scan_at in *. destruct (run g_timelit s) as [[l1 r1]|] eqn:E1.
+  - inversion H; subst. destruct (run_stable _ gwf_timelit _ _ _ E1) as [E L]. split; [exact E|].
+    intros r' Hs. rewrite (L r' Hs). reflexivity.
+  - destruct (run_stable _ gwf_datelit _ _ _ H) as [E L]. split; [exact E|].
+    intros r' Hs. rewrite (run_none_sim _ gwf_timelit s (l ++ r') E1).
+    + apply L. exact Hs.
+    + rewrite E. apply sim_prefix. exact Hs.
+Qed.
+
+Theorem scan_stable : forall s l r, scan s = Some (l, r) ->
+  s = l ++ r /\ l <> [] /\ forall r', sim r r' -> scan (l ++ r') = Some (l, r').
+Proof.
+  intros s l r H. destruct s as [|c s]; [discriminate|]. cbn [scan] in H.
+  destruct (is_alpha c) eqn:Ha.
+  { destruct (span is_idc s) as [a b] eqn:Hs. inversion H; subst. destruct (span_spec _ _ _ _ Hs) as (E & Fa & St).
+    subst s. repeat split; [discriminate|]. intros r' Hsim. destruct (follows_like_sim _ _ Hsim) as (F1 & _). cbn [app scan]. rewrite Ha.
+    rewrite (span_intro is_idc a r' Fa (F1 St)). reflexivity. }
+  destruct (is_digit c) eqn:Hd.
+  { destruct (span is_digit s) as [a b] eqn:Hs. destruct (span_spec _ _ _ _ Hs) as (E & Fa & St). subst s.
+    destruct (frac_follows b) eqn:Hf.
+    - destruct b as [|d b1]; [discriminate|]. destruct (span is_digit b1) as [a2 b2] eqn:Hs2.
+      inversion H; subst. destruct (span_spec _ _ _ _ Hs2) as (E2 & Fa2 & St2). subst b1.
+      destruct (frac_true_shape _ _ _ Hf St2) as [Hd46 (e & a2' & Ea2)].
+      subst d a2. repeat split.
+      + cbn. f_equal. rewrite <- app_assoc. reflexivity.
+      + discriminate.
+      + intros r' Hsim. destruct (follows_like_sim _ _ Hsim) as (_ & F2 & _). cbn [app scan]. rewrite Ha, Hd.
+        rewrite <- app_assoc. cbn [app].
+        rewrite (span_intro is_digit a (46 :: e :: a2' ++ r') Fa) by (cbn; reflexivity).
+        cbn [forallb] in Fa2. apply andb_prop in Fa2 as [He Fa2].
+        cbn [frac_follows]. rewrite He. cbn [N.eqb Pos.eqb andb].
+        replace (span is_digit (e :: a2' ++ r')) with (e :: a2', r').
+        * reflexivity.
+        * symmetry. apply (span_intro is_digit (e :: a2') r'); [cbn [forallb]; rewrite He; exact Fa2|].
+          exact (F2 St2).
+    - inversion H; subst. repeat split; [discriminate|]. intros r' Hsim. destruct (follows_like_sim _ _ Hsim) as (_ & F2 & F3 & _). cbn [app scan]. rewrite Ha, Hd.
+      rewrite (span_intro is_digit a r' Fa (F2 St)). rewrite (F3 Hf). reflexivity. }
+  destruct ((c =? 39) || (c =? 96)) eqn:Hq.
+  { destruct (scan_q c false s) as [[a b]|] eqn:Hs; [|discriminate]. inversion H; subst.
+    destruct (scan_q_local _ _ _ _ _ Hs) as [E L]. subst s. repeat split; [discriminate|].
+    intros r' Hsim. cbn [app scan]. rewrite Ha, Hd, Hq, L. reflexivity. }
+  destruct (c =? 64) eqn:H64.
+  { destruct (scan_at s) as [[a b]|] eqn:Hs; [|discriminate]. inversion H; subst.
+    destruct (scan_at_stable _ _ _ Hs) as [E L]. subst s. repeat split; [discriminate|].
+    intros r' Hsim. cbn [app scan]. rewrite Ha, Hd, Hq, H64, (L r' Hsim). reflexivity. }
+  destruct (c =? 36) eqn:H36.
+  { destruct (strip_prefix kw_this s) as [b|] eqn:H1.
+    { inversion H; subst. destruct (strip_prefix_local _ _ _ H1) as [E L]. subst s. repeat split; [discriminate|].
+      intros r' Hsim. cbn [app scan]. rewrite Ha, Hd, Hq, H64, H36. rewrite L. reflexivity. }
+    destruct (strip_prefix kw_index s) as [b|] eqn:H2.
+    { inversion H; subst. destruct (strip_prefix_local _ _ _ H2) as [E L]. subst s. repeat split; [discriminate|].
+      intros r' Hsim. cbn [app scan]. rewrite Ha, Hd, Hq, H64, H36.
+      replace (strip_prefix kw_this (kw_index ++ r')) with (@None (list N)) by reflexivity. rewrite L. reflexivity. }
+    destruct (strip_prefix kw_total s) as [b|] eqn:H3; [|discriminate].
+    inversion H; subst. destruct (strip_prefix_local _ _ _ H3) as [E L]. subst s. repeat split; [discriminate|].
+    intros r' Hsim. cbn [app scan]. rewrite Ha, Hd, Hq, H64, H36.
+    replace (strip_prefix kw_this (kw_total ++ r')) with (@None (list N)) by reflexivity.
+    replace (strip_prefix kw_index (kw_total ++ r')) with (@None (list N)) by reflexivity. rewrite L. reflexivity. }
+  destruct ((c =? 60) || (c =? 62)) eqn:Hlt.
+  { destruct (eq_follows s) eqn:He.
+    - inversion H; subst. destruct s as [|d s]; [discriminate|]. cbn [eq_follows] in He. apply N.eqb_eq in He. subst d.
+      repeat split; [discriminate|]. intros r' Hsim. cbn [app scan]. rewrite Ha, Hd, Hq, H64, H36, Hlt. reflexivity.
+    - inversion H; subst. repeat split; [discriminate|]. intros r' Hsim. destruct (follows_like_sim _ _ Hsim) as (_ & _ & _ & F4). cbn [app scan]. rewrite Ha, Hd, Hq, H64, H36, Hlt.
+      rewrite (F4 He). reflexivity. }
+  destruct (c =? 33) eqn:H33.
+  { destruct s as [|d s]; [discriminate|]. destruct ((d =? 61) || (d =? 126)) eqn:Hd2; [|discriminate].
+    inversion H; subst. repeat split; [discriminate|]. intros r' Hsim. cbn [app scan]. rewrite Ha, Hd, Hq, H64, H36, Hlt, H33, Hd2. reflexivity. }
+  destruct (is_single c) eqn:Hs1; [|discriminate].
+  inversion H; subst. repeat split; [discriminate|]. intros r' Hsim. cbn [app scan]. rewrite Ha, Hd, Hq, H64, H36, Hlt, H33, Hs1. reflexivity.
+Qed.
+
+
 (* ---- a token followed by a whitespace character ends where it ended, whatever comes after ------------------------------ *)
 (* `scan (l ++ r) = Some (l, r)` with r empty or starting with whitespace: l is a whole token there. *)
-Definition ws_led (r : list N) : Prop := match r with [] => True | w :: _ => is_ws w = true end.
 
 Lemma stops_ws_led : forall p r, (forall w, is_ws w = true -> p w = false) -> ws_led r -> stops p r.
 Proof. intros p [|w r] Hp H; cbn in *; auto. Qed.
@@ -100,64 +337,8 @@ Proof. intros. rewrite <- app_assoc. reflexivity. Qed.
 Theorem scan_token_then_ws : forall s l r, scan s = Some (l, r) -> ws_led r ->
   s = l ++ r /\ l <> [] /\ forall r', ws_led r' -> scan (l ++ r') = Some (l, r').
 Proof.
-  intros s l r H Hr. destruct s as [|c s]; [discriminate|]. cbn [scan] in H.
-  destruct (is_alpha c) eqn:Ha.
-  { destruct (span is_idc s) as [a b] eqn:Hs. inversion H; subst. destruct (span_spec _ _ _ _ Hs) as (E & Fa & _).
-    subst s. repeat split; [discriminate|]. intros r' Hr'. cbn [app scan]. rewrite Ha.
-    rewrite (span_intro is_idc a r' Fa (stops_ws_led _ _ ws_not_idc Hr')). reflexivity. }
-  destruct (is_digit c) eqn:Hd.
-  { destruct (span is_digit s) as [a b] eqn:Hs. destruct (span_spec _ _ _ _ Hs) as (E & Fa & St). subst s.
-    destruct (frac_follows b) eqn:Hf.
-    - destruct b as [|d b1]; [discriminate|]. destruct (span is_digit b1) as [a2 b2] eqn:Hs2.
-      inversion H; subst. destruct (span_spec _ _ _ _ Hs2) as (E2 & Fa2 & _). subst b1.
-      assert (d = 46 /\ exists e a2', a2 = e :: a2') as [Hd46 (e & a2' & Ea2)].
-      { cbn [frac_follows] in Hf. destruct a2 as [|e a2'].
-        - cbn [app] in Hf. destruct r as [|e r]; [discriminate|]. apply andb_prop in Hf as [Hf1 Hf2].
-          cbn in Hr. rewrite (ws_not_digit _ Hr) in Hf2. discriminate.
-        - cbn [app] in Hf. apply andb_prop in Hf as [Hf1 _]. split; [lia|eauto]. }
-      subst d a2. repeat split.
-      + cbn. f_equal. rewrite <- app_assoc. reflexivity.
-      + discriminate.
-      + intros r' Hr'. cbn [app scan]. rewrite Ha, Hd.
-        rewrite <- app_assoc. cbn [app].
-        rewrite (span_intro is_digit a (46 :: e :: a2' ++ r') Fa) by (cbn; reflexivity).
-        cbn [forallb] in Fa2. apply andb_prop in Fa2 as [He Fa2].
-        cbn [frac_follows]. rewrite He. cbn [N.eqb Pos.eqb andb].
-        replace (span is_digit (e :: a2' ++ r')) with (e :: a2', r').
-        * reflexivity.
-        * symmetry. apply (span_intro is_digit (e :: a2') r'); [cbn [forallb]; rewrite He; exact Fa2|].
-          apply stops_ws_led; [exact ws_not_digit|exact Hr'].
-    - inversion H; subst. repeat split; [discriminate|]. intros r' Hr'. cbn [app scan]. rewrite Ha, Hd.
-      rewrite (span_intro is_digit a r' Fa (stops_ws_led _ _ ws_not_digit Hr')).
-      rewrite (frac_follows_ws_led _ Hr'). reflexivity. }
-  destruct ((c =? 39) || (c =? 96)) eqn:Hq.
-  { destruct (scan_q c false s) as [[a b]|] eqn:Hs; [|discriminate]. inversion H; subst.
-    destruct (scan_q_local _ _ _ _ _ Hs) as [E L]. subst s. repeat split; [discriminate|].
-    intros r' _. cbn [app scan]. rewrite Ha, Hd, Hq, L. reflexivity. }
-  destruct (c =? 36) eqn:H36.
-  { destruct (strip_prefix kw_this s) as [b|] eqn:H1.
-    { inversion H; subst. destruct (strip_prefix_local _ _ _ H1) as [E L]. subst s. repeat split; [discriminate|].
-      intros r' _. cbn [app scan]. rewrite Ha, Hd, Hq, H36. change (kw_this ++ r') with (kw_this ++ r'). rewrite L. reflexivity. }
-    destruct (strip_prefix kw_index s) as [b|] eqn:H2.
-    { inversion H; subst. destruct (strip_prefix_local _ _ _ H2) as [E L]. subst s. repeat split; [discriminate|].
-      intros r' _. cbn [app scan]. rewrite Ha, Hd, Hq, H36.
-      replace (strip_prefix kw_this (kw_index ++ r')) with (@None (list N)) by reflexivity. rewrite L. reflexivity. }
-    destruct (strip_prefix kw_total s) as [b|] eqn:H3; [|discriminate].
-    inversion H; subst. destruct (strip_prefix_local _ _ _ H3) as [E L]. subst s. repeat split; [discriminate|].
-    intros r' _. cbn [app scan]. rewrite Ha, Hd, Hq, H36.
-    replace (strip_prefix kw_this (kw_total ++ r')) with (@None (list N)) by reflexivity.
-    replace (strip_prefix kw_index (kw_total ++ r')) with (@None (list N)) by reflexivity. rewrite L. reflexivity. }
-  destruct ((c =? 60) || (c =? 62)) eqn:Hlt.
-  { destruct (eq_follows s) eqn:He.
-    - inversion H; subst. destruct s as [|d s]; [discriminate|]. cbn [eq_follows] in He. apply N.eqb_eq in He. subst d.
-      repeat split; [discriminate|]. intros r' _. cbn [app scan]. rewrite Ha, Hd, Hq, H36, Hlt. reflexivity.
-    - inversion H; subst. repeat split; [discriminate|]. intros r' Hr'. cbn [app scan]. rewrite Ha, Hd, Hq, H36, Hlt.
-      rewrite (eq_follows_ws_led _ Hr'). reflexivity. }
-  destruct (c =? 33) eqn:H33.
-  { destruct s as [|d s]; [discriminate|]. destruct ((d =? 61) || (d =? 126)) eqn:Hd2; [|discriminate].
-    inversion H; subst. repeat split; [discriminate|]. intros r' _. cbn [app scan]. rewrite Ha, Hd, Hq, H36, Hlt, H33, Hd2. reflexivity. }
-  destruct (is_single c) eqn:Hs1; [|discriminate].
-  inversion H; subst. repeat split; [discriminate|]. intros r' _. cbn [app scan]. rewrite Ha, Hd, Hq, H36, Hlt, H33, Hs1. reflexivity.
+  intros s l r H _. destruct (scan_stable _ _ _ H) as (E & Hl & L). repeat split; [exact E|exact Hl|].
+  intros r' Hr'. apply L. apply sim_of_ws_led. exact Hr'.
 Qed.
 
 (* a token never starts with whitespace, so the automaton hands it over untouched -- unless it starts `//` or a
@@ -182,6 +363,9 @@ Proof.
   { destruct (scan_q c false s) as [[a b]|]; [|discriminate]. inversion H; subst. eapply K; [reflexivity| |].
     - intros ->. discriminate.
     - unfold is_ws. lia. }
+  destruct (c =? 64) eqn:H64.
+  { apply N.eqb_eq in H64. subst c. destruct (scan_at s) as [[a b]|]; [|discriminate]. inversion H; subst.
+    eapply K; [reflexivity|discriminate|reflexivity]. }
   destruct (c =? 36) eqn:H36.
   { apply N.eqb_eq in H36. subst c.
     destruct (strip_prefix kw_this s); [inversion H; subst; eapply K; [reflexivity|discriminate|reflexivity]|].
@@ -288,5 +472,6 @@ Proof. intros g s [|f] H; [reflexivity|]. cbn [lex]. rewrite (skipm_ws_prefix g 
 
 (* non-vacuity: concrete lexemes of every class *)
 Example lexeme_examples :
-  Forall lexeme [[97;95;49]; [49;50;46;53]; [39;97;92;39;98;39]; [36;116;104;105;115]; [60;61]; [33;126]; [47]; [96;32;96]].
+  Forall lexeme [[97;95;49]; [49;50;46;53]; [39;97;92;39;98;39]; [36;116;104;105;115]; [60;61]; [33;126]; [47]; [96;32;96];
+                 [64;50;48;50;48;45;48;51;84;49;48;58;51;48;90]; [64;84;49;48;58;51;48;58;49;53;46;53]].
 Proof. repeat constructor. Qed.
